@@ -104,6 +104,33 @@ fn one(part: &mut Part, name: &str, p: &Program) {
     let p = &mut p;
     let reg = match spec_universe::registry_autodecl(p) { Err(m) => { fail(part, "C14", format!("{name}: registry: {}", m.chars().take(60).collect::<String>()), format!("{p}").replace('\n', " "), format!("ProgramRegistry::new panicked: {m}")); return; } Ok(None) => return, Ok(Some(r)) => r };
     part.accepted += 1;
+    // C15 (signature level): builtin pointers are linear resources - no libfunc creates, copies or
+    // forgets one: each builtin type occurs in every branch's outputs exactly as often as in the inputs
+    if let Ok(lf) = reg.get_libfunc(&"L".into()) {
+        if !matches!(lf, CoreConcreteLibfunc::FunctionCall(_) | CoreConcreteLibfunc::CouponCall(_) | CoreConcreteLibfunc::DummyFunctionCall(_)) {
+            let generic_of = |ty: &ConcreteTypeId| reg.get_type(ty).ok().map(|t| { use cairo_lang_sierra::extensions::ConcreteType; t.info().long_id.generic_id.0.to_string() });
+            const BUILTINS: [&str; 11] = ["RangeCheck", "GasBuiltin", "Pedersen", "Bitwise", "EcOp", "Poseidon", "SegmentArena", "RangeCheck96", "AddMod", "MulMod", "System"];
+            // a declaration whose generic arguments mention a builtin type (Box<Pedersen>, a struct with a
+            // RangeCheck member, ..) moves builtins in and out of containers: conservation would have to be
+            // counted inside the containers, so those declarations are left out
+            fn mentions(reg: &ProgramRegistry<CoreType, CoreLibfunc>, arg: &cairo_lang_sierra::program::GenericArg, depth: usize) -> bool {
+                use cairo_lang_sierra::extensions::ConcreteType;
+                let cairo_lang_sierra::program::GenericArg::Type(ty) = arg else { return false };
+                let Ok(t) = reg.get_type(ty) else { return false };
+                let l = &t.info().long_id;
+                BUILTINS.contains(&l.generic_id.0.as_str()) || (depth < 8 && l.generic_args.iter().any(|a| mentions(reg, a, depth + 1)))
+            }
+            let skip = p.libfunc_declarations[0].long_id.generic_args.iter().any(|a| mentions(&reg, a, 0));
+            for b in BUILTINS.iter().filter(|_| !skip) {
+                let b = *b;
+                let n_in = lf.param_signatures().iter().filter(|ps| generic_of(&ps.ty).as_deref() == Some(b)).count();
+                for (bi, bs) in lf.branch_signatures().iter().enumerate() {
+                    let n_out = bs.vars.iter().filter(|v| generic_of(&v.ty).as_deref() == Some(b)).count();
+                    if n_in != n_out { fail(part, "C15", format!("{name} {b}"), format!("{}", p.libfunc_declarations[0].long_id), format!("`{}` takes {n_in} value(s) of the builtin type {b} and branch {bi} returns {n_out}: a builtin pointer would be created, copied or forgotten", p.libfunc_declarations[0].long_id)); }
+                }
+            }
+        }
+    }
     let trace = std::env::var("VERIF_SWEEP_TRACE").is_ok();
     let Some(q) = synthesize(p, &reg) else { return };
     let text = format!("{q}").replace('\n', " ");
@@ -213,14 +240,14 @@ fn __verif_n_libfunc_sweep() {
     let sum = |f: fn(&Part) -> u64| parts.iter().map(f).sum::<u64>();
     let (cases, accepted, compiled, cap, ccost) = (sum(|p| p.cases), sum(|p| p.accepted), sum(|p| p.compiled), sum(|p| p.compared_ap), sum(|p| p.compared_cost));
     let bound = format!("{} generic libfunc ids (and every generic type id, through the type-size map) x argument lists of length 0..=2 over {} boundary types/values: {cases} declarations, {accepted} accepted, {compiled} one-invocation programs compiled; {cap} (branch, path) ap comparisons, {ccost} cost comparisons", targets.len(), uni.len());
-    for (prop, id) in [("C14", "total"), ("C17", "ap_declared_equals_emitted"), ("C04", "cost_covers_steps")] {
+    for (prop, id) in [("C14", "total"), ("C17", "ap_declared_equals_emitted"), ("C04", "cost_covers_steps"), ("C15", "builtins_are_threaded")] {
         let mine: Vec<_> = parts.iter().flat_map(|p| p.fails.iter()).filter(|f| f.0 == prop).collect();
         for (k, (_, key, input, why)) in mine.iter().enumerate() {
             println!("VERIF-N id=N/n_libfunc_sweep/{id}:{} props={prop} status=fail key=\"{}\" input=\"{}\" detail=\"{}\" bound=\"{bound}\"", k + 1, key.replace('"', "'"), input.replace('"', "'").chars().take(1500).collect::<String>(), why.replace('"', "'").replace('\n', " ").chars().take(400).collect::<String>());
         }
         if mine.is_empty() {
             if compiled == 0 { println!("VERIF-N id=N/n_libfunc_sweep/{id} props={prop} status=unknown"); }
-            else { println!("VERIF-N id=N/n_libfunc_sweep/{id} props={prop} status=ok cases={} distinct={compiled} bound=\"{bound}\"", match prop { "C14" => cases, "C17" => cap.max(1), _ => ccost.max(1) }); }
+            else { println!("VERIF-N id=N/n_libfunc_sweep/{id} props={prop} status=ok cases={} distinct={compiled} bound=\"{bound}\"", match prop { "C14" => cases, "C17" => cap.max(1), "C15" => accepted.max(1), _ => ccost.max(1) }); }
         }
     }
 }
